@@ -277,7 +277,10 @@ def gen_case(rng):
         sel = list(reversed(ids))
     return {'n': n, 'tol': bits(sc.TOL), 'lcheck': lcheck, 'lvals': [[bits(x) for x in r] for r in lvals], 'subs': subs,
             'solve_before': sb, 'solve_after': sa, 'eval_before': hooks_rows(), 'eval_after': hooks_rows(),
-            'status': '-' * n, 'iters': [-1] * n, 'opts': o, 't': t, 'sel': sel, 'sel_none': sel_none,
+            # the linker's own record of earlier solves (never read by the solver: linker_history_irrelevant)
+            'status': ''.join(rng.choice('-.FES') for _ in range(n)) if rng.random() < 0.4 else '-' * n,
+            'iters': [rng.choice([-1, 0, 4, 9]) for _ in range(n)] if rng.random() < 0.4 else [-1] * n,
+            'opts': o, 't': t, 'sel': sel, 'sel_none': sel_none,
             'argform': rng.choice(['plain', 'plain', 'numpy']), 'selform': rng.choice(['list', 'list', 'tuple', 'keys', 'nparray'])}
 
 
